@@ -170,6 +170,31 @@ pub struct Registration<T = &'static dyn Callsite> {
 pub(crate) use self::inner::register_dispatch;
 pub use self::inner::{rebuild_interest_cache, register};
 
+/// Yield points for schedule-controlled tests of the registration paths.
+#[cfg(tokio_rs_tracing_verif)]
+#[doc(hidden)]
+pub mod __verif {
+    use core::sync::atomic::{AtomicUsize, Ordering};
+
+    static HOOK: AtomicUsize = AtomicUsize::new(0);
+
+    /// Installs (or clears) the function that is called at every yield point.
+    pub fn set_yield_hook(f: Option<fn(&'static str)>) {
+        HOOK.store(f.map(|f| f as usize).unwrap_or(0), Ordering::SeqCst);
+    }
+
+    /// Calls the installed hook, if any, with the name of this yield point.
+    #[inline]
+    pub fn yield_point(name: &'static str) {
+        let p = HOOK.load(Ordering::SeqCst);
+        if p != 0 {
+            // Safety: the only non-zero values ever stored are `fn(&'static str)` pointers.
+            let f: fn(&'static str) = unsafe { core::mem::transmute::<usize, fn(&'static str)>(p) };
+            f(name)
+        }
+    }
+}
+
 #[cfg(feature = "std")]
 mod inner {
     use super::*;
@@ -213,9 +238,15 @@ mod inner {
     /// [`Collect`]: crate::collect::Collect
     /// [cache-docs]: crate::callsite#rebuilding-cached-interest
     pub fn rebuild_interest_cache() {
+        #[cfg(tokio_rs_tracing_verif)]
+        super::__verif::yield_point("rebuild:enter");
         let mut dispatchers = REGISTRY.dispatchers.write().unwrap();
+        #[cfg(tokio_rs_tracing_verif)]
+        super::__verif::yield_point("rebuild:locked");
         let callsites = &REGISTRY.callsites;
         rebuild_interest(callsites, &mut dispatchers);
+        #[cfg(tokio_rs_tracing_verif)]
+        super::__verif::yield_point("rebuild:rebuilt");
     }
 
     /// Register a new [`Callsite`] with the global registry.
@@ -230,18 +261,30 @@ mod inner {
     /// [reg-docs]: crate::callsite#registering-callsites
     pub fn register(registration: &'static Registration) {
         let dispatchers = REGISTRY.dispatchers.read().unwrap();
+        #[cfg(tokio_rs_tracing_verif)]
+        super::__verif::yield_point("register:locked");
         rebuild_callsite_interest(&dispatchers, registration.callsite);
+        #[cfg(tokio_rs_tracing_verif)]
+        super::__verif::yield_point("register:computed");
         REGISTRY.callsites.push(registration);
+        #[cfg(tokio_rs_tracing_verif)]
+        super::__verif::yield_point("register:pushed");
     }
 
     pub(crate) fn register_dispatch(dispatch: &Dispatch) {
+        #[cfg(tokio_rs_tracing_verif)]
+        super::__verif::yield_point("dispatch:enter");
         let mut dispatchers = REGISTRY.dispatchers.write().unwrap();
+        #[cfg(tokio_rs_tracing_verif)]
+        super::__verif::yield_point("dispatch:locked");
         let callsites = &REGISTRY.callsites;
 
         dispatch.collector().on_register_dispatch(dispatch);
         dispatchers.push(dispatch.registrar());
 
         rebuild_interest(callsites, &mut dispatchers);
+        #[cfg(tokio_rs_tracing_verif)]
+        super::__verif::yield_point("dispatch:rebuilt");
     }
 
     fn rebuild_callsite_interest(
